@@ -528,7 +528,7 @@ example : marshalScalar .inet (.ip [0,0,0,0,0,0,0,0,0,0,255,255,10,0,0,1]) = .ok
   have : ipTo4 [0,0,0,0,0,0,0,0,0,0,255,255,10,0,0,1] = some [10, 0, 0, 1] := by decide
   simp [marshalScalar, interpScalar, this]
 
-/-- CONFORMANCE AT EVERY NESTING DEPTH (protocol ≥ 3), by induction on the Go value: for every type tree built from
+/-- CONFORMANCE AT EVERY NESTING DEPTH, EVERY PROTOCOL VERSION (both collection framings), by induction on the Go value: for every type tree built from
     the 21 scalar types with list, set, map and non-empty tuples (`nest`), every Go value all of whose parts are values
     of their Go types (`wf`), documented for that column (`documented`) and outside the exact deviation predicate
     (`excluded`, the open findings): gocql.Marshal returns
@@ -537,14 +537,17 @@ example : marshalScalar .inet (.ip [0,0,0,0,0,0,0,0,0,0,255,255,10,0,0,1]) = .ok
         `specEnc` of the documented meaning `interp`, collection counts, element lengths, −1 for null elements and
         null tuple fields included,
       * or an error (no bytes); never a panic, never an unmodelled combination.
+    Under protocol ≤ 2 (2-byte unsigned counts and lengths, no null element) `excluded` keeps out exactly the
+    collections holding a `nullish` element — untyped nil also behind pointers, typed nil pointer, nil []byte / slice /
+    map (KF-C12-8, `C12_cex_null_element_v2`, `C12_cex_ptr_nil_v2`).
     The element hypotheses of `C12_list_framing` / `C12_tuple_framing` are discharged here by the induction. -/
-theorem C12_marshal_conforms (p : Nat) (hp : p ≥ 3) (t : CqlTy) (g : GoVal) (hn : C12Nest.nest t = true)
+theorem C12_marshal_conforms (p : Nat) (t : CqlTy) (g : GoVal) (hn : C12Nest.nest t = true)
     (hw : C12Nest.wf g) (hd : documented t g = true) (hx : excluded p t g = false) :
     (marshal p t g = .ok none → interp t g = some .null) ∧
     (∀ b, marshal p t g = .ok (some b) → b.length < 2^31 →
       ∃ c, interp t g = some c ∧ c.isNull = false ∧ specEnc p t c = some b) ∧
     marshal p t g ≠ .crash ∧ marshal p t g ≠ .unmodelled := by
-  have h := C12Nest.marshal_conforms p hp t g hn hw hd hx
+  have h := C12Nest.marshal_conforms p t g hn hw hd hx
   refine ⟨fun e => ?_, fun b e hl => ?_, fun e => ?_, fun e => ?_⟩ <;> rw [e] at h
   · exact h
   · exact h hl
@@ -562,7 +565,35 @@ example : ∃ c, interp (.list (.tuple [.text, .int])) (.slice false [.struct [.
     have hm1 : encInt (-1) = [255, 255, 255, 255] := by decide
     simp [marshal, wrapSeq, marshalElems, collSize, collItem, wrapTuple, marshalTupleFields, GoVal.isNilPtr, appendBytes,
       marshalScalar, marshalVarcharColumn, h1, h9, hm1]
-  obtain ⟨c, hc, _, hs⟩ := (C12_marshal_conforms 4 (by decide) _ _ (by decide)
+  obtain ⟨c, hc, _, hs⟩ := (C12_marshal_conforms 4 _ _ (by decide)
+    (by simp [C12Nest.wf, C12Nest.wfAll, C12Nest.wfScalar]) (by decide) (by decide)).2.1 _ hm (by decide)
+  exact ⟨c, hc, hs⟩
+
+/-- KF-C12-8 also behind a pointer: a `*interface{}` holding nil inside a collection under protocol ≤ 2 is written as a
+    zero-length element; the specification has no encoding (no null in the 2-byte framing).  `nullish` (and the
+    harness classifier valgen.Excluded) count it since this round: before, `excluded` tested `v == nil` only and
+    the conformance statement was false for this input.  = replay input `enc 2 map int int map k int ptr iface 1 i int 1 ptr nil` -/
+theorem C12_cex_ptr_nil_v2 :
+    marshal 2 (.map .int .int) (.map false [(.int .int false 1, .ptr .nil)]) = .ok (some [0, 1, 0, 4, 0, 0, 0, 1, 0, 0]) ∧
+    specEnc 2 (.map .int .int) (.map [(.int 1, .null)]) = none ∧
+    excluded 2 (.map .int .int) (.map false [(.int .int false 1, .ptr .nil)]) = true ∧
+    excluded 3 (.map .int .int) (.map false [(.int .int false 1, .ptr .nil)]) = false := by
+  refine ⟨?_, by decide, by decide, by decide⟩
+  have h1 : encShort (toS 16 1) = [0, 1] := by decide
+  have h0 : encShort (toS 16 0) = [0, 0] := by decide
+  have h4 : encShort (toS 16 4) = [0, 4] := by decide
+  have hi : encInt (toS 32 1) = [0, 0, 0, 1] := by decide
+  simp [marshal, wrapSeq, marshalPairs, collSize, collItem, marshalScalar, marshalIntColumn, optM, marshalIntKind, h1, h0, h4, hi]
+
+/-- non-vacuity under protocol 2: set<text> from a slice of strings, 2-byte framing -/
+example : ∃ c, interp (.set .text) (.slice false [.str false [97], .str false []]) = some c ∧
+    specEnc 2 (.set .text) c = some [0, 2, 0, 1, 97, 0, 0] := by
+  have hm : marshal 2 (.set .text) (.slice false [.str false [97], .str false []]) = .ok (some [0, 2, 0, 1, 97, 0, 0]) := by
+    have h2 : encShort (toS 16 2) = [0, 2] := by decide
+    have h1 : encShort (toS 16 1) = [0, 1] := by decide
+    have h0 : encShort (toS 16 0) = [0, 0] := by decide
+    simp [marshal, wrapSeq, marshalElems, collSize, collItem, marshalScalar, marshalVarcharColumn, h2, h1, h0]
+  obtain ⟨c, hc, _, hs⟩ := (C12_marshal_conforms 2 _ _ (by decide)
     (by simp [C12Nest.wf, C12Nest.wfAll, C12Nest.wfScalar]) (by decide) (by decide)).2.1 _ hm (by decide)
   exact ⟨c, hc, hs⟩
 
